@@ -9,7 +9,7 @@ POP_ENGINES = ("EADeme", "DEDeme", "SHADEDeme")
 
 
 def h_step(P, kinds, shape, props, L=2, hibernation=False, generations=2, mech="stub", warm=1, monotone=True, maximize=False,
-           deme_filters="limit1", objective="smooth"):
+           deme_filters="limit1", objective="smooth", lsc="sym"):
     w = build(P, kinds, shape, L=L, hibernation=hibernation, generations=generations, mech=mech, warm=warm, maximize=maximize,
               deme_filters=deme_filters, objective=objective)
     tree = w.tree
@@ -21,6 +21,11 @@ def h_step(P, kinds, shape, props, L=2, hibernation=False, generations=2, mech="
         _c02_end_to_end(P, w, tree)
     best_before = [tree.best_individual.fitness]
     go_symbolic(w, monotone=monotone)
+    if lsc == "MetaepochLimit:sym":
+        # shipped local stop condition that reads the deme's own history, with a symbolic limit
+        from pyhms.stop_conditions import MetaepochLimit
+        for i, l in enumerate(w.lscs):
+            l.inner = MetaepochLimit(P.int(f"lsc_limit{i}", 0, 5))
     height = len(tree.levels)
 
     # ---- obligations evaluated at every consultation of the global stop condition
@@ -98,8 +103,15 @@ def h_step(P, kinds, shape, props, L=2, hibernation=False, generations=2, mech="
                 P.oblige("C06.never_reactivated", implies(d._active, pre["active"]))
                 if should_run:
                     P.oblige("C06.deactivation_rule", _deactivation(w, d, pre))
+                    inner = w.lscs[d.level].inner
+                    consulted_gsc_true = any(b for b, who in zip(w.gsc.verdicts, w.gsc.where) if who == did)
+                    if inner is not None and not consulted_gsc_true and type(d).__name__ not in ("LocalDeme",) \
+                            and not any(getattr(d, "_verif_stop_verdicts", [])):
+                        # the condition is evaluated on the deme as it is at the END of its metaepoch (this metaepoch recorded)
+                        P.oblige("C06.stops_iff_lsc_holds_at_end_of_metaepoch", val(d._active) == (not bool(inner(d))))
             if "C18" in props and sleeping and was_active:
                 P.oblige("C18.sleep_is_free", stepped == 0 and mine == 0 and len(d._history) == pre["hist"] and digest(d) == pre["digest"])
+                P.oblige("C18.sleeping_deme_counts_no_evaluations", d.n_evaluations == pre["evals"])
         if "C06" in props:
             for lvl, d in new_demes:
                 P.oblige("C06.fresh_deme", len(d._history) == 1 and d.started_at == tree.metaepoch_count and d._active is True
@@ -359,10 +371,17 @@ def tree_cases(prop, tier, hibernation_values=(False,), extra=None):
     # plateau objective (exact ties, zero gradients: local searches that finish without a single iterate)
     add("step.ea-local.terrace", kinds=["ea", "local"], shape=[[0, 0]], generations=1, L=3, hibernation=hibernation_values[0], objective="terrace")
     add("step.ea-cma.terrace", kinds=["ea", "cma"], shape=[[0]], generations=2, L=2, hibernation=hibernation_values[0], objective="terrace")
+    add("step.ea-ea-cma.terrace", kinds=["ea", "ea", "cma"], shape=[[0, 0], [0]], generations=1, L=2, hibernation=hibernation_values[0], objective="terrace",
+        deme_filters="none")
     # the other SEA-family engines as root / intermediate levels
     for kinds in ((("ga", "cma"), ("mwea", "cma")) if tier == "quick" else (("ga", "cma"), ("mwea", "cma"), ("sea-xover", "de"), ("sea-adaptive", "cma"), ("ea", "ga", "cma"))):
         shape = [[0]] if len(kinds) == 2 else [[0], [0]]
         add(f"step.{'-'.join(kinds)}.variant", kinds=list(kinds), shape=shape, generations=2, L=2, hibernation=hibernation_values[0])
+    # shipped local stop condition reading the deme's own history (symbolic limit)
+    for kinds in ((("ea", "shade"), ("de", "cma")) if tier == "quick" else (("ea", "shade"), ("de", "cma"), ("shade", "ea"), ("lhs", "de"), ("ea", "ea", "cma"))):
+        shape = [[0, 0]] if len(kinds) == 2 else [[0], [0]]
+        add(f"step.{'-'.join(kinds)}.lsc-metaepochlimit", kinds=list(kinds), shape=shape, generations=2, L=2, hibernation=hibernation_values[0],
+            lsc="MetaepochLimit:sym")
     # more than two generations per metaepoch
     for kinds in (("de", "cma"), ("ea", "cma"), ("shade", "cma")):
         add(f"step.{'-'.join(kinds)}.g3", kinds=list(kinds), shape=[[0]], generations=3, L=2, hibernation=hibernation_values[0])
